@@ -46,6 +46,10 @@ def hook_cmp(ex, op, a, b, st):
             return x > y
         if isinstance(op, ast.Lt):
             return x < y
+        if isinstance(op, ast.GtE):
+            return x >= y
+        if isinstance(op, ast.LtE):
+            return x <= y
     return None
 
 
